@@ -9,8 +9,8 @@ use crate::commands::build_command;
 use crate::config::Config;
 use crate::diagnostic_emitter::DiagnosticEmitter;
 use codespan_reporting::term::DisplayStyle;
-use mos_simrt::rng::{self, Rng};
 use mos_simrt::disk::{Fault, FaultKind, Op};
+use mos_simrt::rng::{self, Rng};
 use mos_simrt::{disk, entropy};
 use serde_json::{json, Value};
 use std::collections::{BTreeMap, BTreeSet, HashSet};
@@ -46,7 +46,12 @@ impl Outcome {
         let files: BTreeMap<String, String> = self
             .files
             .iter()
-            .map(|(k, v)| (k.clone(), format!("{} bytes fnv={:016x}", v.len(), rng::fnv64(v))))
+            .map(|(k, v)| {
+                (
+                    k.clone(),
+                    format!("{} bytes fnv={:016x}", v.len(), rng::fnv64(v)),
+                )
+            })
             .collect();
         json!({"status": self.status, "files": files, "diagnostics": self.diag, "panic": self.panic, "canary_order": self.canary})
     }
@@ -89,7 +94,11 @@ pub fn run_build(project: &Project, faults: &[Fault], entropy_seed: u64, style: 
                 em.emit(e);
                 drop(em);
                 let b = buf.lock().unwrap().clone();
-                ("err".to_string(), String::from_utf8_lossy(&b).to_string(), String::new())
+                (
+                    "err".to_string(),
+                    String::from_utf8_lossy(&b).to_string(),
+                    String::new(),
+                )
             }
             Err(_) => {
                 let p = mos_simrt::panics::peek();
@@ -158,7 +167,11 @@ pub fn classify(a: &Outcome, b: &Outcome) -> Option<(String, String, String)> {
     if a.status != b.status {
         return Some((
             "result_kind".into(),
-            format!("result_kind:{}_vs_{}", a.status.clone().min(b.status.clone()), a.status.clone().max(b.status.clone())),
+            format!(
+                "result_kind:{}_vs_{}",
+                a.status.clone().min(b.status.clone()),
+                a.status.clone().max(b.status.clone())
+            ),
             format!("result kind differs: {} vs {}", a.status, b.status),
         ));
     }
@@ -232,7 +245,13 @@ pub fn fault_plan_for(seed: u64, k: u64, p: &Project) -> Vec<Fault> {
     if !r.chance(1, 4) {
         return vec![];
     }
-    let mut targets: Vec<String> = vec!["target/main.prg".into(), "target/main.bin".into(), "target/main.lst".into(), "target/main.vs".into(), "target/lib0.lst".into()];
+    let mut targets: Vec<String> = vec![
+        "target/main.prg".into(),
+        "target/main.bin".into(),
+        "target/main.lst".into(),
+        "target/main.vs".into(),
+        "target/lib0.lst".into(),
+    ];
     for f in p.files.values() {
         if let Ok(t) = std::str::from_utf8(f) {
             for l in t.lines() {
@@ -253,13 +272,26 @@ pub fn fault_plan_for(seed: u64, k: u64, p: &Project) -> Vec<Fault> {
         if out.iter().any(|f: &Fault| f.path == path) {
             continue;
         }
-        out.push(Fault { path, nth: 0, op: Op::Write, kind: if r.chance(1, 2) { FaultKind::NoSpace } else { FaultKind::PermissionDenied } });
+        out.push(Fault {
+            path,
+            nth: 0,
+            op: Op::Write,
+            kind: if r.chance(1, 2) {
+                FaultKind::NoSpace
+            } else {
+                FaultKind::PermissionDenied
+            },
+        });
     }
     out
 }
 
 fn faults_json(f: &[Fault]) -> Value {
-    Value::Array(f.iter().map(|f| json!({"path": f.path.to_string_lossy(), "kind": f.kind.name()})).collect())
+    Value::Array(
+        f.iter()
+            .map(|f| json!({"path": f.path.to_string_lossy(), "kind": f.kind.name()}))
+            .collect(),
+    )
 }
 
 fn faults_from_json(v: Option<&Value>) -> Vec<Fault> {
@@ -271,7 +303,11 @@ fn faults_from_json(v: Option<&Value>) -> Vec<Fault> {
                         path: std::path::PathBuf::from(f.get("path")?.as_str()?),
                         nth: 0,
                         op: Op::Write,
-                        kind: if f.get("kind")?.as_str()? == "enospc" { FaultKind::NoSpace } else { FaultKind::PermissionDenied },
+                        kind: if f.get("kind")?.as_str()? == "enospc" {
+                            FaultKind::NoSpace
+                        } else {
+                            FaultKind::PermissionDenied
+                        },
                     })
                 })
                 .collect()
@@ -280,7 +316,11 @@ fn faults_from_json(v: Option<&Value>) -> Vec<Fault> {
 }
 
 pub fn entropy_seed_for(seed: u64, k: u64, j: u64) -> u64 {
-    rng::derive(seed, "hashsim.entropy", k.wrapping_mul(1_000_003).wrapping_add(j))
+    rng::derive(
+        seed,
+        "hashsim.entropy",
+        k.wrapping_mul(1_000_003).wrapping_add(j),
+    )
 }
 
 struct CheckResult {
@@ -311,7 +351,13 @@ fn check_project(p: &Project, faults: &[Fault], seeds: &[u64], style: u64) -> Ch
 
 /// Shrink the project while some pair of the given entropy seeds still
 /// disagrees with the same violation class.
-fn minimise(p: &Project, faults: &[Fault], seeds: &[u64], style: u64, class: &str) -> (Project, u64, u64) {
+fn minimise(
+    p: &Project,
+    faults: &[Fault],
+    seeds: &[u64],
+    style: u64,
+    class: &str,
+) -> (Project, u64, u64) {
     let seeds: Vec<u64> = seeds.iter().take(8).cloned().collect();
     let still = |q: &Project| -> Option<(u64, u64)> {
         let r = check_project(q, faults, &seeds, style);
@@ -360,7 +406,8 @@ fn minimise(p: &Project, faults: &[Fault], seeds: &[u64], style: u64, class: &st
                 None => false,
             }
         });
-        cur.files.insert(n.clone(), (kept.join("\n") + "\n").into_bytes());
+        cur.files
+            .insert(n.clone(), (kept.join("\n") + "\n").into_bytes());
         if let Some(pr) = still(&cur) {
             pair = pr;
         } else {
@@ -402,7 +449,11 @@ fn replay(cli: &Cli, path: &Path) -> i32 {
     let seeds: Vec<u64> = v
         .get("entropy_seeds")
         .and_then(|s| s.as_array())
-        .map(|a| a.iter().filter_map(|x| x.as_str().and_then(parse_u64).or(x.as_u64())).collect())
+        .map(|a| {
+            a.iter()
+                .filter_map(|x| x.as_str().and_then(parse_u64).or(x.as_u64()))
+                .collect()
+        })
         .unwrap_or_default();
     let style = v.get("style").and_then(|s| s.as_u64()).unwrap_or(0);
     if seeds.len() < 2 {
@@ -444,7 +495,12 @@ fn replay(cli: &Cli, path: &Path) -> i32 {
     if cli.opts.contains_key("dump") {
         for (s, o) in [(seeds[0], &a), (seeds[1], &b)] {
             for (k, v) in &o.files {
-                println!("##### seed {:#x} file {}\n{}", s, k, String::from_utf8_lossy(v));
+                println!(
+                    "##### seed {:#x} file {}\n{}",
+                    s,
+                    k,
+                    String::from_utf8_lossy(v)
+                );
             }
         }
     }
@@ -485,7 +541,12 @@ pub fn main(cli: &Cli) -> i32 {
         let k = cli.opt_u64("from").unwrap_or(0);
         let p = project_for(seed, k);
         let faults = fault_plan_for(seed, k, &p);
-        let o = run_build(&p, &faults, entropy_seed_for(seed, k, 0), rng::derive(seed, "hashsim.style", k));
+        let o = run_build(
+            &p,
+            &faults,
+            entropy_seed_for(seed, k, 0),
+            rng::derive(seed, "hashsim.style", k),
+        );
         println!("{}", serde_json::to_string_pretty(&json!({"project": p.to_json(), "write_faults": faults_json(&faults), "outcome": o.to_json()})).unwrap());
         return EXIT_OK;
     }
@@ -607,7 +668,10 @@ pub fn main(cli: &Cli) -> i32 {
         batch = rng::fnv64_extend(batch, &h.to_le_bytes());
     }
     if determinism {
-        println!("DETERMINISM engine=hashsim runs={} batch_hash={:016x}", acc.projects, batch);
+        println!(
+            "DETERMINISM engine=hashsim runs={} batch_hash={:016x}",
+            acc.projects, batch
+        );
         return EXIT_OK;
     }
     acc.samples.sort_by_key(|(k, _)| *k);
@@ -628,7 +692,10 @@ pub fn main(cli: &Cli) -> i32 {
     ev.set("result_kinds", json!(acc.status_counts));
     ev.set("project_kinds", json!(acc.kinds));
     ev.set("fault_kinds_injected", json!({"hash_seed_change": acc.builds, "entropy_calls_served": acc.entropy_calls, "projects_with_output_write_faults (enospc/eacces on an output file, same plan for all seeds)": acc.projects_with_write_faults, "builds_that_failed_writing": acc.write_faults_fired}));
-    ev.set("panics_under_all_seeds_not_judged_here", json!(acc.panics_all_seeds));
+    ev.set(
+        "panics_under_all_seeds_not_judged_here",
+        json!(acc.panics_all_seeds),
+    );
     ev.set("batch_hash", json!(format!("{:016x}", batch)));
     ev.set("simulated_time_ms", json!(0));
     ev.set("components", json!({
